@@ -72,7 +72,7 @@ func (x *Exec) builtin(name string, e *ast.CallExpr, st *State) []Val {
 		kt := mk(k.Name, SInt)
 		doff, soff := slOff(dst.T), slOff(src.T)
 		st.assume(Forall([]BoundVar{k}, Implies(And(Le(IntLit(0), kt), Lt(kt, n)),
-			Eq(Select(na, Add(doff, kt)), Select(sarr, Add(soff, kt))))))
+			Eq(Select(na, IdxAdd(doff, kt)), Select(sarr, IdxAdd(soff, kt))))))
 		k2 := BoundVar{Name: x.freshBound("k"), Sort: SInt}
 		k2t := mk(k2.Name, SInt)
 		st.assume(Forall([]BoundVar{k2}, Implies(Or(Lt(k2t, doff), Ge(k2t, Add(doff, n))),
@@ -144,17 +144,17 @@ func (x *Exec) appendCall(e *ast.CallExpr, st *State) Val {
 	k := BoundVar{Name: x.freshBound("k"), Sort: SInt}
 	kt := mk(k.Name, SInt)
 	st.assume(Forall([]BoundVar{k}, Implies(And(Le(IntLit(0), kt), Lt(kt, oldLen)),
-		Eq(Select(na, Add(off, kt)), Select(oldArr, Add(oldOff, kt))))))
+		Eq(Select(na, IdxAdd(off, kt)), Select(oldArr, IdxAdd(oldOff, kt))))))
 	// new elements
 	if spread != nil {
 		sarr := st.sel(h, slReg(spread.T))
 		k2 := BoundVar{Name: x.freshBound("k"), Sort: SInt}
 		k2t := mk(k2.Name, SInt)
 		st.assume(Forall([]BoundVar{k2}, Implies(And(Le(IntLit(0), k2t), Lt(k2t, n)),
-			Eq(Select(na, Add(Add(off, oldLen), k2t)), Select(sarr, Add(slOff(spread.T), k2t))))))
+			Eq(Select(na, IdxAdd(off, Add(oldLen, k2t))), Select(sarr, IdxAdd(slOff(spread.T), k2t))))))
 	} else {
 		for i, el := range elems {
-			st.assume(Eq(Select(na, Add(Add(off, oldLen), IntLit(int64(i)))), el))
+			st.assume(Eq(Select(na, IdxAdd(off, Add(oldLen, IntLit(int64(i))))), el))
 		}
 	}
 	// in-place: other cells of the region unchanged
